@@ -178,6 +178,19 @@ func init() {
 		Models:      []string{"as C02, without lazy meta-schemas"},
 	})
 	reg(&PropSpec{
+		ID: "C05", Prefix: "vh_C05_", MaxSteps: 20000000,
+		Quick:    Tier{Params: map[string]int{"name_len": 2}},
+		Thorough: Tier{Params: map[string]int{"name_len": 3}},
+		Bounds: []string{
+			"two documents (root, sub/a.json); the element name is 1..name_len symbolic bytes over {/ ~ % # ? { } space a 0xC3 0xA9}; kinds: definition, parameter, response, path item (/name), schema under the mixed-case root extension x-Shared-Models; target in the root or in the other document; existing element or a missing sibling name; root supplied typed, generic, or by location only; ContinueOnError symbolic",
+			"the reference text is built by the oracle: [doc] # / section / pct(esc6901(name)); entry points ResolveRefWithBase, ResolveParameterWithBase, ResolveResponseWithBase, ResolvePathItemWithBase",
+			"asserted: error iff nothing is designated; the result's JSON equals the designated sub-document member-wise (nested $ref intact); the typed root's JSON is unchanged",
+		},
+		Outside:     []string{"ResolveItems, nested pointers through properties/items/allOf (the pointer steps themselves are C15's subject), parent-directory and absolute-URL documents (C12), longer names"},
+		Assumptions: []string{"valid UTF-8 names"},
+		Models:      []string{"as C02; documents are served as abstract JSON texts with a symbolic member name"},
+	})
+	reg(&PropSpec{
 		ID: "C11", Prefix: "vh_C11_",
 		Quick:    Tier{Params: map[string]int{"segs": 2, "seg_len": 2}},
 		Thorough: Tier{Params: map[string]int{"segs": 3, "seg_len": 2}},
